@@ -165,6 +165,9 @@ type Sim struct {
 	curInc  int
 
 	PanicTasks []string
+	// OnPanic is called (in the panicking task, after its stack unwound) for an unrecovered panic of a task;
+	// true = handled by the harness (e.g. as the death of the incarnation), false = reported as a task panic
+	OnPanic func(task string, inc int, msg string) bool
 	QuietInc   map[int]bool // incarnations that are shutting down: their task panics are not reported
 	Stop       bool // set by harness: stop scheduling, Run returns "stopped"
 
@@ -305,7 +308,10 @@ func (s *Sim) SpawnIn(inc int, name string, f func()) {
 		defer func() {
 			if e := recover(); e != nil && !s.QuietInc[t.inc] {
 				t.panicV = fmt.Sprint(e)
-				s.PanicTasks = append(s.PanicTasks, fmt.Sprintf("task %d(%s): %v\n%s", t.id, t.name, e, trimStack(string(debug.Stack()))))
+				// an unrecovered panic of a goroutine ends a real process: a harness may take it as a process death
+				if s.OnPanic == nil || !s.OnPanic(t.name, t.inc, t.panicV) {
+					s.PanicTasks = append(s.PanicTasks, fmt.Sprintf("task %d(%s): %v\n%s", t.id, t.name, e, trimStack(string(debug.Stack()))))
+				}
 			}
 			s.mu.Lock()
 			t.state = stDone
